@@ -26,6 +26,9 @@ type Op struct {
 	Wrong    bool // signed with a key other than the required one
 	LowGas   bool
 	Boundary string // C19: which bound this create-deployment probes
+	// Tail is a second message of the same signer that is certain to fail: the transaction as a whole
+	// must then be rejected and the first message's effects rolled back (failing sub-step fault)
+	Tail sdk.Msg
 }
 
 var collidingDSeq = []uint64{1, 12, 256, 257, 65536, 65537, 1 << 32, 1<<32 + 1, 2, 120, 3}
@@ -468,6 +471,22 @@ func (g *gen) bankSend() *Op {
 	return &Op{Kind: "BankSend", Msg: msg, Required: from}
 }
 
+// failingTail builds a message the required signer of op may sign and that cannot succeed.
+func (g *gen) failingTail(op *Op) sdk.Msg {
+	a := op.Required
+	switch op.Msg.(type) {
+	case *mtypes.MsgCreateBid, *mtypes.MsgCloseBid, *mtypes.MsgWithdrawLease, *ptypes.MsgCreateProvider, *ptypes.MsgUpdateProvider:
+		// provider-signed: close a bid that does not exist
+		oid := mtypes.OrderID{Owner: g.w.ActorsOf("bystander")[0].Bech, DSeq: 987654321, GSeq: 1, OSeq: 1}
+		return mtypes.NewMsgCloseBid(mtypes.MakeBidID(oid, a.Addr))
+	case *atypes.MsgSignProviderAttributes, *atypes.MsgDeleteProviderAttributes:
+		return &atypes.MsgDeleteProviderAttributes{Owner: g.w.ActorsOf("bystander")[0].Bech, Auditor: a.Bech, Keys: []string{"nosuchkey"}}
+	default:
+		// tenant / owner signed: close a deployment that does not exist
+		return dtypes.NewMsgCloseDeployment(dtypes.DeploymentID{Owner: a.Bech, DSeq: 987654321})
+	}
+}
+
 // kinds in a fixed order (weights are looked up by name).
 var opKinds = []string{"CreateDeployment", "DepositDeployment", "UpdateDeployment", "CloseDeployment", "CloseGroup", "PauseGroup",
 	"StartGroup", "CreateBid", "CloseBid", "CreateLease", "WithdrawLease", "CloseLease", "CreateProvider", "UpdateProvider",
@@ -631,6 +650,9 @@ func (g *gen) NextOp() *Op {
 			op.Signer = other
 			op.Wrong = true
 		}
+	}
+	if pct := g.bias["fault.failing-tail"]; pct > 0 && !op.Wrong && r.Bool(pct, "fault.failing-tail") {
+		op.Tail = g.failingTail(op)
 	}
 	if pct := g.bias["fault.lowgas"]; pct > 0 && r.Bool(pct, "fault.lowgas") {
 		gases := []uint64{40000, 55000, 62000, 66000, 70000, 75000, 80000, 90000, 100000, 120000, 150000}
